@@ -85,7 +85,11 @@ def run_case(case):  # pylint: disable=too-many-locals,too-many-branches,too-man
         src_keys = sorted(src_model)
         request = []
         for sel in case['request']:
-            if sel % 4 == 0:
+            dst_only = sorted(k for k in dst_model if k not in src_model)
+            if sel % 4 == 0 and (sel // 4) % 2 and dst_only:
+                # a key the source lacks but the DESTINATION holds: still a key "the source lacks", to be ignored
+                request.append(dst_only[(sel // 8) % len(dst_only)])
+            elif sel % 4 == 0:
                 request.append(absent_key(src_cfg['hash_type'], sel // 4 % 4))
             else:
                 request.append(src_keys[(sel // 4) % len(src_keys)])
